@@ -47,6 +47,11 @@ type Config struct {
 	// WorkBuf > 0: capacity of the channel runSync feeds its copy workers
 	// through (1000 in perkeep; always >= PendingBatch, as in perkeep).
 	WorkBuf int `json:"workBuf,omitempty"`
+	// ViaReplica: clients upload through a replica set whose first member is
+	// the source (the generated configuration's /bs-and-index/ is
+	// replica(/bs/, /index/) while /sync-to-.../ copies from /bs/): what the
+	// source receives that way must be delivered like any other blob.
+	ViaReplica bool `json:"viaReplica,omitempty"`
 }
 
 // Op is one element of Plan.Ops.
@@ -305,6 +310,9 @@ func gen(tier string, run int, r *simcore.Rand) *harness.Plan {
 		if r.Bool(0.5) {
 			cfg.WorkBuf = cfg.PendingBatch + r.Intn(3)
 		}
+	}
+	if cfg.Ctor == "config" && r.Bool(0.15) {
+		cfg.ViaReplica = true
 	}
 	if backlog {
 		cfg.WorkBuf = r.Range(1, 3)
